@@ -171,7 +171,7 @@ CLS_NS = [[], ["acme"], ["@scope"], ["github.com", "phylum-dev"], ["%40scope%2Fe
           ["example.org", "repo.git", "..", "..", "etc"], [".", "a.git", "."]]
 CLS_NAME = ["name", "a/b", "%2Fetc", "tool.git", "n@m", "Foo_.-Bar", "\u039f\u0394\u039f\u03a3", "\u0130" + KEL + "-x", "100%25", "n" * 40, "g:a", "report%2520final",
             "@types/node", "\u023a\u023a_", "a+b c", "requests[security]", "Zope.Interface[Test_Extra]", "django>=4.2", "commons-io-2.11.jar"]
-CLS_VER = [None, "1.0", "1.0/beta", "v@1", "1.0.0-rc.1+build.5", "\u00fc1", "%2F%2e", "1.0?x#y"]
+CLS_VER = [None, "1.0", "1.0/beta", "v@1", "1.0.0-rc.1+build.5", "\u00fc1", "%2F%2e", "1.0?x#y", "1.0.0.0", "13.0.3.00", "01.02", "1.0.0+incompatible", "V1.2.3-BETA"]
 CLS_QUALS = [
     ([], None),
     ([("arch", "x86")], None),
@@ -887,7 +887,14 @@ def cksum_texts(ctx):
                 out.append("md5:00,sha1:" + base[:pos] + ch + base[pos + 1:])
     out += ["a:b c:00", "x:y&z=1:00ff", "s:h+1:00", "u:\u00fc#:00", "sha1:aa, md5:bb", " md5:bb", "md5:aa, md5:bb", "md5 :00", "\tsha1:00,sha1:11",
             "sha:aa,sha1:bb", "sha2-256:00ff,sha2:11", "md5:01,md:ff,sha256:00"]
-    out += ["sha1:+aFF", "sha1:0x1F", "sha1:1e", "sha1:١٢", "sha1:ａｂ", "a:00,b", "a:00,,b:11", "a::00", ":00", "a:", ","]
+    # one algorithm is a prefix of another up to a ':' — the digest of the first then lines up with the rest of the second's
+    # name, in either letter case (anything that compares whole entries instead of algorithms goes wrong here)
+    for P_ in ("a", "blake2"):
+        for S_ in ("b", "d", "0", "g"):
+            for X_ in ("C0", "c0", "F0FF", "0F", "Ab", "E1"):
+                out.append("%s:%s,%s:%s:00" % (P_, X_, P_, S_))
+                out.append("%s:%s:00,%s:%s" % (P_, S_, P_, X_))
+    out += ["sha1:+aFF", "sha1:0x1F", "sha1:0x", "sha1:0X1f", "sha256:0xdeadbeef", "md5:00ff,sha1:0XAB", "sha1:1e", "sha1:١٢", "sha1:ａｂ", "a:00,b", "a:00,,b:11", "a::00", ":00", "a:", ","]
     if ctx.tier == "thorough":
         for seq in itertools.product(algs + ["A"], repeat=4):
             out.append(",".join("%s:%02x" % (a, 17 * i) for i, a in enumerate(seq)))
